@@ -232,6 +232,20 @@ CHECKS = {
          "outside their lossless domain), ExceptionGroup.",
     technique="TLA+ spec + TLC; TLC-enumerated raise shapes crossed with the library's exception whitelist and run through the real call paths; TLC trace validation",
     ref="6/C07"),
+ "C02": dict(
+    category="model_checking",
+    text="Expose.tla defines, for a member shape (kind x where defined x how marked x name class x oneway) and a request (kind x relation of "
+         "the requested name to the member), whether target code may run (Served) and what the daemon must advertise; TLC checks OnlyExposed "
+         "and AdvertisedIsServed over all 42000 combinations; Gen_Expose.tla enumerates the 540 constructible shapes; for each the harness "
+         "builds a real class hierarchy, registers an instance in a real daemon and writes raw INVOKE messages (call, oneway, batch, oneway "
+         "batch, __getattr__, __setattr__) for the exact name and its underscore, dunder, reserved, dotted, look-alike and non-string variants "
+         "under all four serializers; a side-effect log inside every generated function, an object snapshot, the reply kind and get_metadata "
+         "are recorded and judged per case by TLC (Trace_Expose.tla).",
+    note="Trusted: the side-effect log (every function of the generated classes appends to it), the snapshot comparison, the in-memory "
+         "transport, TLC. One member under test per class next to an always-exposed bystander. Not generated: members reachable only through "
+         "a class's own __getattr__ hook, instance-level functions carrying a hand-made mark, metaclass tricks.",
+    technique="TLA+ spec + TLC; TLC-enumerated class shapes built as real classes and probed with raw wire requests; TLC trace validation",
+    ref="6/C02"),
 }
 NOT_YET = {}
 ALL = ["C%02d" % i for i in range(1, 21)]
